@@ -69,6 +69,31 @@ def _jdefault(o):
 _SCRATCH_ROOT = None
 
 
+def fpath(name) -> str:
+    """Path of a file whose io.FileIO .name may be a descriptor number (file opened by descriptor):
+    descriptor numbers differ between processes and must never reach the event log."""
+    if isinstance(name, int):
+        try:
+            return os.readlink(f"/proc/self/fd/{name}")
+        except OSError:
+            return "<fd>"
+    return str(name)
+
+
+ARGFORM = "int"
+ARGFORMS = ("int", "int", "int", "int64", "int32", "intp")
+
+
+def nint(v):
+    """An integer argument in the form the scenario chose: the Python int, or the numpy integer scalar a
+    caller gets from np.argmax / array arithmetic (ARGFORM is set from sc["argform"] for the run)."""
+    if v is None or ARGFORM == "int" or isinstance(v, bool) or not isinstance(v, int):
+        return v
+    import numpy as np
+
+    return getattr(np, ARGFORM)(v)
+
+
 def scratch_root() -> str:
     """Per-process scratch directory on tmpfs (the simulated disk lives here)."""
     global _SCRATCH_ROOT
@@ -106,7 +131,7 @@ class Ctx:
         self.events.append(ev)
 
     def rel(self, path) -> str:
-        p = str(path)
+        p = fpath(path)
         if p.startswith(self.root):
             return p[len(self.root) + 1 :]
         return os.path.basename(p)
@@ -175,8 +200,12 @@ def run_scenario(mod, sc: dict, keep: bool = False) -> Outcome:
     error (anything that is not a Violation) is recorded in .error, never as a verdict."""
     import traceback
 
+    global ARGFORM
     ctx = Ctx(sc, keep=keep)
     out = Outcome()
+    ARGFORM = sc.get("argform") or "int"
+    if ARGFORM != "int":
+        ctx.probe("integer-arguments-as-numpy-scalars")
     try:
         try:
             if getattr(mod, "GUARD_KERNELS", False):
